@@ -88,7 +88,8 @@ verus! {
 pub trait VxAsDeref {
     spec fn vx_view(&self) -> Option<Seq<char>>;
     fn vx_as_deref(&self) -> (r: Option<&str>)
-        ensures (match r { Some(s) => self.vx_view() == Some(s@), None => self.vx_view() is None });
+        ensures (match r { Some(s) => self.vx_view() == Some(s@), None => self.vx_view() is None }),
+            r is Some == self.vx_view() is Some, r is Some ==> r.unwrap()@ == self.vx_view().unwrap();
 }
 impl VxAsDeref for Option<String> {
     open spec fn vx_view(&self) -> Option<Seq<char>> { match self { Some(s) => Some(s@), None => None } }
